@@ -636,10 +636,20 @@ impl<T: Clone> OrderType<T> {
                         incoming_quantity - visible_qty, // remaining quantity
                     )
                 } else {
-                    // Partial match
+                    // Partial match: build the reduced order here, `with_reduced_quantity`
+                    // leaves TrailingStop, Pegged and MarketToLimit orders unchanged
+                    let new_quantity = visible_qty - incoming_quantity;
+                    let mut updated = self.clone();
+                    match &mut updated {
+                        Self::PostOnly { quantity, .. }
+                        | Self::TrailingStop { quantity, .. }
+                        | Self::PeggedOrder { quantity, .. }
+                        | Self::MarketToLimit { quantity, .. } => *quantity = new_quantity,
+                        _ => {}
+                    }
                     (
                         incoming_quantity, // consumed all incoming
-                        Some(self.with_reduced_quantity(visible_qty - incoming_quantity)),
+                        Some(updated),
                         0, // not hidden reduced
                         0, // not remaining quantity
                     )
